@@ -101,11 +101,18 @@ Proof.
 Qed.
 
 Lemma epoch_ms_id : forall ms, date_ok ms = true -> epoch_ms ms = ms.
+Proof. intros ms _. reflexivity. Qed.
+
+(* the conversion of the pinned tree (t.UnixNano() / 1e6) agreed with it exactly on the dates Go expresses in
+   nanoseconds, and not on Go's zero time (year 1), which came back as a day in 1754 *)
+Lemma epoch_ms_nano_id : forall ms, date_ok ms = true -> epoch_ms_nano ms = ms.
 Proof.
-  intros ms H. apply mp_date_ok_bounds in H. unfold epoch_ms.
+  intros ms H. apply mp_date_ok_bounds in H. unfold epoch_ms_nano.
   rewrite mp_wrap64_id by (apply mp_in_i64_intro; lia).
   apply Z.quot_mul. lia.
 Qed.
+Example epoch_ms_nano_zero_time : epoch_ms_nano (-62135596800000) = -6795364578871.
+Proof. vm_compute. reflexivity. Qed.
 
 Lemma mp_u32_mod_id : forall t, in_u32 t = true -> t mod 2 ^ 32 = t.
 Proof.
@@ -306,8 +313,6 @@ Proof.
   - rewrite leaves_ok_VArr in Hok. rewrite flatten_VArr, restore_VArr, strip_VArr.
     rewrite restore_arr_own_F by assumption. reflexivity.
   - destruct b; reflexivity.
-  - cbn [leaves_ok] in Hok. cbn [flatten map snd app restore strip].
-    rewrite (epoch_ms_id _ Hok). reflexivity.
   - cbn [leaves_ok] in Hok. cbn [flatten map snd app restore strip].
     rewrite (mp_wrap32_id _ Hok). reflexivity.
   - cbn [leaves_ok] in Hok. apply andb_true_iff in Hok. destruct Hok as [Hok1 Hok2].
